@@ -296,9 +296,108 @@ def build_fcidump(ctx, natom=2, variant="sym"):
     return kw, {}, {}, exp, tol
 
 
-BUILDERS = dict(xyz=build_xyz, pdb=build_pdb, mol2=build_mol2, sdf=build_sdf, poscar=build_poscar, cube=build_cube,
+def _symm(ctx, name, n):
+    sym = ctx.mode == "sym"
+    m = np.zeros((n, n), dtype=object if sym else float)
+    for i in range(n):
+        for j in range(i + 1):
+            m[i, j] = m[j, i] = ctx.real(f"{name}{i}_{j}", lo=-50, hi=50, default=0.1 * (i + 1) - 0.03 * j)
+    return m
+
+
+def density_form(ctx, obasis, dm):
+    """The bilinear form sum_mu,nu D[mu,nu] chi_mu chi_nu over canonical primitive keys (one-primitive shells)."""
+    from specs import basisfun as BF
+    funcs = BF.basis_functions(BF.shells_of(obasis), obasis.conventions)
+    out = {}
+    for mu, fm in enumerate(funcs):
+        for nu, fn_ in enumerate(funcs):
+            for k1, c1 in fm.items():
+                for k2, c2 in fn_.items():
+                    BF.add_to(out, (k1, k2), dm[mu, nu] * c1 * c2)
+    return out
+
+
+def same_density(ctx, ob1, dm1, ob2, dm2):
+    a, b = density_form(ctx, ob1, dm1), density_form(ctx, ob2, dm2)
+    parts = []
+    for k in set(a) | set(b):
+        r = ctx.approx(a.get(k, 0.0), b.get(k, 0.0), 1e-7, atol=1e-10)
+        if r is False:
+            return False
+        if r is not True:
+            parts.append(r)
+    return And(*parts) if parts else True
+
+
+def build_fchk(ctx, natom=2, variant="wf-own"):
+    """FCHK: geometry + properties + wavefunction.
+
+    wf-<conv>: basis, orbitals and density matrices in the given conventions; uhf / rohf: open shells; post: post-SCF
+    density matrices; corenums: symbolic core charges; bare: no optional attribute; geom: no wavefunction.
+    """
+    from harness import wfobj
+    conv = variant.split("-", 1)[1] if variant.startswith("wf-") else "fchk"
+    shells = [(0, [2], ["c"], 1), (1, [0], ["c"], 1)] if natom >= 2 else [(0, [2], ["c"], 1)]
+    if variant in ("uhf", "rohf", "post", "corenums", "bare"):
+        shells = [(0, [1], ["c"], 1), (1, [0], ["c"], 1)][:max(1, natom)]
+    atoms = [(8, None), (1, None), (6, None)][:natom]
+    mo_kind, occ = "restricted", "closed"
+    if variant == "uhf":
+        mo_kind, occ = "unrestricted", "uhf-odd"
+    if variant == "rohf":
+        occ = "rohf"
+    kw = wfobj.make_wf(ctx, atoms, shells, conv="fchk" if conv == "own" else conv, mo_kind=mo_kind, norb=2, occ=occ,
+                       contraction_sym=False)
+    nb = wfobj.nbasis_of(shells)
+    n3 = 3 * natom
+    exp = {}
+    if variant == "corenums":
+        kw["atcorenums"] = ctx.real_array("zcore", (natom,), lo=0.0, hi=20.0)
+        exp["atcorenums"] = kw["atcorenums"]
+    if variant == "geom":
+        del kw["obasis"], kw["mo"]
+        kw["nelec"] = 10.0
+    if variant == "nomo":
+        del kw["mo"]
+        kw["nelec"] = 10.0
+    if variant != "bare":
+        kw["atmasses"] = ctx.real_array("mass", (natom,), lo=1.0, hi=300.0) * 1822.888486209
+        kw["atgradient"] = ctx.real_array("grad", (natom, 3), lo=-9, hi=9)
+        kw["athessian"] = _symm(ctx, "hess", n3)
+        kw["energy"] = ctx.real("etot", lo=-1e4, hi=0, default=-76.0)
+        kw["moments"] = {(1, "c"): ctx.real_array("dip", (3,), lo=-9, hi=9), (2, "c"): ctx.real_array("quad", (6,), lo=-9, hi=9)}
+        kw["extra"] = {"polarizability_tensor": _symm(ctx, "pol", 3)}
+        kw["atcharges"] = {k: ctx.real_array(f"q{k}", (natom,), lo=-9, hi=9)
+                           for k in ("mulliken", "esp", "npa", "mbs", "hirshfeld", "cm5")}
+        kw["title"] = "fchk title"
+        kw["lot"] = "mp2" if variant == "post" else "hf"
+        kw["obasis_name"] = "sto-3g"
+        kw["run_type"] = ctx.choice(["energy", "freq", "opt", "scan"], label="run_type")
+        if variant not in ("geom", "nomo"):
+            kw["one_rdms"] = {"scf": _symm(ctx, "dm", nb), "scf_spin": _symm(ctx, "sdm", nb)}
+            if variant == "post":
+                kw["one_rdms"]["post_scf_ao"] = _symm(ctx, "pdm", nb)
+                kw["one_rdms"]["post_scf_spin_ao"] = _symm(ctx, "psdm", nb)
+        for k in ("atmasses", "atgradient", "athessian", "energy", "title", "lot", "obasis_name", "run_type"):
+            exp[k] = kw[k]
+        exp["moments.(1, 'c')"] = kw["moments"][(1, "c")]
+        exp["moments.(2, 'c')"] = kw["moments"][(2, "c")]
+        exp["extra.polarizability_tensor"] = kw["extra"]["polarizability_tensor"]
+        for k, v in kw["atcharges"].items():
+            exp[f"atcharges.{k}"] = v
+    exp["atnums"] = kw["atnums"]
+    exp["atcoords"] = kw["atcoords"]
+    if variant not in ("geom", "nomo"):
+        exp["@wavefunction"] = True
+    tol = dict(atcoords=1e-7, atmasses=("rel", 1e-7), atgradient=("rel", 1e-7), athessian=("rel", 1e-7), energy=("rel", 1e-8),
+               atcorenums=1e-7)
+    return kw, {}, {}, exp, tol
+
+
+BUILDERS = dict(fchk=build_fchk, xyz=build_xyz, pdb=build_pdb, mol2=build_mol2, sdf=build_sdf, poscar=build_poscar, cube=build_cube,
                 fcidump=build_fcidump)
-FILENAMES = dict(xyz="mol.xyz", pdb="mol.pdb", mol2="mol.mol2", sdf="mol.sdf", poscar="POSCAR", cube="mol.cube",
+FILENAMES = dict(fchk="mol.fchk", xyz="mol.xyz", pdb="mol.pdb", mol2="mol.mol2", sdf="mol.sdf", poscar="POSCAR", cube="mol.cube",
                  fcidump="FCIDUMP")
 
 
@@ -306,6 +405,8 @@ FILENAMES = dict(xyz="mol.xyz", pdb="mol.pdb", mol2="mol.mol2", sdf="mol.sdf", p
 
 
 def get_attr(data, path):
+    if path.startswith("moments."):
+        return data.moments.get(eval(path.split(".", 1)[1]))
     obj = data
     for part in path.split("."):
         if obj is None:
@@ -427,6 +528,22 @@ def snap_equal(ctx, a, b, path=""):
     return out
 
 
+def _compare_wavefunction(ctx, data, back, cls):
+    """Orbitals as functions of space and every density matrix as a bilinear form (conventions may differ)."""
+    from harness import c01
+    ctx.oblige("reload:orbitals-present", back.mo is not None and back.obasis is not None, cls=cls)
+    if back.mo is None or back.obasis is None:
+        return
+    for label, f, where in c01.same_orbitals(ctx, c01.semantic(ctx, data), c01.semantic(ctx, back)):
+        ctx.oblige("reload:" + label, f, cls=cls, detail=where)
+    for key, dm in data.one_rdms.items():
+        got = back.one_rdms.get(key)
+        if got is None:
+            ctx.oblige(f"reload:one_rdms.{key}", False, cls=cls, detail="missing after reload")
+            continue
+        ctx.oblige(f"reload:density-matrix-{key}-is-the-same-density", same_density(ctx, data.obasis, dm, back.obasis, got), cls=cls)
+
+
 def h_roundtrip(ctx, fmt="xyz", natom=2, variant="default", prop="C02", policy="fit", twin=False):
     import iodata.api as api
     from iodata.iodata import IOData
@@ -477,6 +594,9 @@ def h_roundtrip(ctx, fmt="xyz", natom=2, variant="default", prop="C02", policy="
             return          # C15 speaks about objects that have been saved and reloaded once
         if prop == "C02":
             for attr, want in exp.items():
+                if attr == "@wavefunction":
+                    _compare_wavefunction(ctx, data, back, cls)
+                    continue
                 if twin and attr == "atcoords":
                     want = want * 1.0000001
                 if attr == "bonds":
